@@ -556,7 +556,11 @@ def arenaOp (isKey : Bool) (op : Toks) (a : Arena Int) : Option (Arena Int × St
   | true, ["export", t] => do
     let t ← tokInt t
     let (a', vals, capReq) ← a.kExport t
-    pure (a', s!"{showInts vals} cap={capReq}")
+    -- the exported vector as the explicit-stack loop of the Rust code produces it (`Model/ArenaTrace.lean`;
+    -- `arena_export_stack`: it is the recursive walk's)
+    let sv ← a'.exportStack
+    if sv != vals then none else
+    pure (a', s!"{showInts sv} cap={capReq}")
   | true, [m, t, k] => do
     let (mode, by_) ← (match m with
       | "fl" => some (Mode.fl, false) | "fle" => some (Mode.fle, false) | "fleby" => some (Mode.fle, true)
